@@ -2075,6 +2075,16 @@ class Interp:
             pass
         from .merge import loop_back_snapshot
 
+        if not const_true and not any(isinstance(x, (ast.Call, ast.Await, ast.NamedExpr)) for x in ast.walk(node.test)):
+            # a loop test that the values carried back already decide (a flag set in this iteration): the loop is left
+            # here rather than at the havocked head of a next iteration (only tests without calls: evaluating them twice
+            # must not have effects)
+            back_test = self.pred_of(self.eval(node.test))
+            if back_test == PFALSE:
+                self.log("while.exit", node, id=loop_id)
+                if node.orelse:
+                    self.exec_block(node.orelse)
+                return
         snap = loop_back_snapshot(self, node, entry)
         self.log("while.back", node, id=loop_id, snap=snap)
         raise PathEnd(("loopback", loop_id, snap))
